@@ -167,6 +167,24 @@ IsLamArg(f, i, nargs) ==
       [] f = "join" -> i \in {2, 3}
       [] OTHER -> FALSE
 
+\* lambda parameters may be passed by their keyword (the convention-translated parameter name): such a keyword argument stays
+\* lazy exactly like the positional one, so it is moved to its position before anything is evaluated
+LamParamNames(f) ==
+    CASE f = "toDict" -> <<"keySelector", "valueSelector">>
+      [] f = "groupBy" -> <<"keySelector", "valueSelector", "aggregator">>
+      [] f = "distinct" -> <<"keySelector">>
+      [] f \in {"where", "takeWhile", "skipWhile", "all", "indexWhere", "lastIndexWhere", "sliceWhere", "splitWhere", "any", "count"} -> <<"predicate">>
+      [] f \in {"select", "selectMany", "orderBy", "orderByDescending", "thenBy", "thenByDescending"} -> <<"selector">>
+      [] OTHER -> <<>>
+RECURSIVE NormKw(_, _, _)
+NormKw(f, pos, kws) ==
+    LET names == LamParamNames(f)
+        nxt == Len(pos) + 1
+    IN IF nxt <= Len(names) /\ \E j \in 1..Len(kws) : kws[j][1] = names[nxt]
+       THEN LET j == CHOOSE j \in 1..Len(kws) : kws[j][1] = names[nxt]
+            IN NormKw(f, Append(pos, kws[j][2]), SubSeq(kws, 1, j - 1) \o SubSeq(kws, j + 1, Len(kws)))
+       ELSE [pos |-> pos, kws |-> kws]
+
 RECURSIVE Eval(_, _, _), EvalSeq(_, _, _, _), EvalKws(_, _, _, _), Apply(_, _, _), MapLam(_, _, _, _), CallFn(_, _, _, _, _),
           Method(_, _, _, _, _), SortBy(_, _, _), KeysOf(_, _, _, _), InsertSorted(_, _, _, _), GroupLoop(_, _, _, _, _, _), Finish(_, _),
           FoldLam(_, _, _, _), AccLam(_, _, _, _, _), JoinLoop(_, _, _, _, _, _), CmpKeys(_, _, _), ToDictLoop(_, _, _, _, _), SplitLoop(_, _, _, _, _, _, _)
@@ -726,17 +744,19 @@ Eval(e, env, log) ==
                     IN IF user[1] = "lam" THEN
                             LET a == EvalSeq(e[4], env, r.log, <<>>) IN IF IsErr(a.v) THEN a ELSE Apply(user, <<r.v>> \o a.v[2], a.log)
                        ELSE \* arguments: closures for lambda parameters, values otherwise, left to right
-                            LET RECURSIVE Args(_, _, _, _)
+                            LET ne == NormKw(f, e[4], e[5])
+                                RECURSIVE Args(_, _, _, _)
                                 Args(es, i, lg, acc) ==
                                     IF es = <<>> THEN R(L(acc), lg)
-                                    ELSE IF IsLamArg(f, i, Len(e[4]))
+                                    ELSE IF IsLamArg(f, i, Len(ne.pos))
                                          THEN Args(Tail(es), i + 1, lg, Append(acc, <<"lam", Head(es), env>>))
                                     ELSE LET v == Eval(Head(es), env, lg)
                                          IN IF IsErr(v.v) THEN v
                                             ELSE LET vf == Finish(v.v, v.log) IN IF IsErr(vf.v) THEN vf ELSE Args(Tail(es), i + 1, vf.log, Append(acc, vf.v))
-                                a == Args(e[4], 1, r.log, <<>>)
+                                a == Args(ne.pos, 1, r.log, <<>>)
                             IN IF IsErr(a.v) THEN a
-                               ELSE LET k == EvalKws(e[5], env, a.log, <<>>)
+                               ELSE IF \E j \in 1..Len(ne.kws) : \E i \in 1..Len(LamParamNames(f)) : ne.kws[j][1] = LamParamNames(f)[i] THEN R(UnH, a.log)
+                               ELSE LET k == EvalKws(ne.kws, env, a.log, <<>>)
                                     IN IF IsErr(k.v) THEN k ELSE Method(f, r.v, a.v[2], k.v[2], k.log)
 
 \* top level: evaluate and finalise (orderings are forced, sets stay sets)
